@@ -363,6 +363,18 @@ func (p *Path) symConvNumeric(x value, dst types.BasicKind) value {
 		case types.Float64:
 			return p.mkFloat(ts.FpToFp(x.t, 64), dst)
 		}
+		// int -> float -> int round trips (e.g. `v == int64(float64(v))`):
+		// when the path condition confines the integer to +-2^53 the round
+		// trip is the identity, and no floating-point term is needed. One
+		// bit-vector query decides that.
+		if x.t.op == "to_fp" && len(x.t.args) == 1 && x.t.args[0].sort.k == sBV && x.t.args[0].sort.w == 64 && kindWidth(dst) == 64 && kindSigned(dst) {
+			iv := x.t.args[0]
+			lim := uint64(1) << 53
+			rng := ts.And(ts.BvRel("bvsge", iv, ts.BV(-lim, 64)), ts.BvRel("bvsle", iv, ts.BV(lim, 64)))
+			if p.feasible(ts.Not(rng)) == Unsat {
+				return p.mkInt(iv, dst)
+			}
+		}
 		// float -> int. Go on amd64: out-of-range and NaN give the
 		// "integer indefinite" value 0x8000... for 64/32 bit signed
 		// destinations; smaller widths truncate the 32/64-bit result.
